@@ -349,4 +349,57 @@ theorem scaleKeys_linear_rat (L2 L10 : Rat → Rat) (mn mx : Int) (hlt : mn < mx
     rw [linKey_five] at b
     exact ⟨a, b⟩
 
+/-- the legend text for a range: what `heat_legend_line_u` says line 0 is -/
+def IsLegendLine (A : Arith α) (env : Env) (h : Heatmap) (mn mx : Int) (line : Bytes) : Prop :=
+  ∃ parts : List Bytes, line = writeRepeat 32 (h.maxRowKeyWidth + 1) ++ parts.flatten ∧
+    parts.length = (scaleKeys A h.scaler 6 mn mx).length ∧
+    ∀ (i : Nat) (k : Int), (scaleKeys A h.scaler 6 mn mx)[i]? = some k →
+      ∃ cell, heatWrite A env (scale A h.scaler k mn mx) = .ok cell ∧ IsHeatCell env cell ∧
+        parts[i]? = some ((if i > 0 then ascii "    " else []) ++ cell ++ [32] ++ h.fmt.apply k mn mx)
+
+/-- after a WHOLE `Heatmap.WriteTable` line 0 is the legend of the range the table was drawn with (`UpdateMinMaxFromData`: the
+data range, fixed ends kept) and of the key column width BEFORE this render (the rows may widen it afterwards) -/
+theorem heat_writeTable_legend_u (U : UnitLaws A Dom Unit le) (env : Env) (h : Heatmap) (vt : VirtualTerm) (ho : vt.closed = false)
+    (hrc : 0 ≤ h.rowCount) (hcc : 0 ≤ h.colCount) (rkeys ckeys : List Bytes) (c : Cells) (hc : DomCells Dom c) (hmn : Dom h.minVal) (hmx : Dom h.maxVal) :
+    ∃ h' vt' line, h.writeTable A env vt rkeys ckeys c = .ok (h', vt') ∧ vt'.lines[0]? = some line ∧
+      IsLegendLine A env h (h.range c).1 (h.range c).2 line := by
+  have hr := dom_range U h c hc hmn hmx
+  have hr1 := hr.1
+  have hr2 := hr.2
+  obtain ⟨vt1, parts, hu, ho1, hline0, hplen, hparts, _⟩ := heat_legend_line_u U env h vt ho (h.range c).1 (h.range c).2 hr1 hr2
+  generalize hh1 : ({ h with minVal := (h.range c).1, maxVal := (h.range c).2 } : Heatmap) = h1 at hu
+  have hrc1 : h1.rowCount = h.rowCount := by rw [← hh1]
+  have hcc1 : h1.colCount = h.colCount := by rw [← hh1]
+  obtain ⟨r, hr⟩ := headerText_ok env h1 (c.cols.map (keyAt ckeys))
+  have hcount := headerText_count env h1 _ r hr
+  simp only [List.length_map, hcc1] at hcount
+  obtain ⟨vt2, hw2, ho2, _, hkeep2⟩ := vt_write_ok vt1 ho1 1 r.1
+  have hc0 : 0 ≤ r.2 := by rw [hcount]; exact mini_nonneg (by omega) hcc
+  have hc1 : r.2 ≤ c.cols.length := by rw [hcount]; exact mini_le_left _ _
+  have hslice := sliceTo_ok c.cols r.2 hc0 hc1
+  obtain ⟨st3, hf3, ho3, _, hkeep3⟩ := heat_rows_ok_u U env rkeys c hc (c.cols.take r.2.toNat)
+    (c.rows.take (mini c.rows.length h.rowCount).toNat) 0 (h1, vt2) ho2 (by rw [← hh1]; exact hr1) (by rw [← hh1]; exact hr2)
+  have hnr0 : 0 ≤ mini (c.rows.length : Int) h.rowCount := mini_nonneg (by omega) hrc
+  have hmain : h.writeTable A env vt rkeys ckeys c =
+      st3.1.writeRowsNote env st3.2 c.rows.length (mini c.rows.length h.rowCount) := by
+    unfold Heatmap.writeTable
+    simp only [hu, bind, Except.bind, hr]
+    have : (1 : Int) = ((1 : Nat) : Int) := rfl
+    rw [this, hw2]
+    simp only [hslice, hrc1, heat_writeRows_eq_u, hf3]
+  have hl2 : vt2.lines[0]? = some (writeRepeat 32 (h.maxRowKeyWidth + 1) ++ parts.flatten) := hkeep2 0 _ (by omega) hline0
+  have hl3 : st3.2.lines[0]? = some (writeRepeat 32 (h.maxRowKeyWidth + 1) ++ parts.flatten) := hkeep3 0 _ (Or.inl (by omega)) hl2
+  have hleg : IsLegendLine A env h (h.range c).1 (h.range c).2 (writeRepeat 32 (h.maxRowKeyWidth + 1) ++ parts.flatten) :=
+    ⟨parts, rfl, hplen, fun i k hk => (hparts i k hk).2⟩
+  rw [hmain]
+  unfold Heatmap.writeRowsNote
+  by_cases hmore : (c.rows.length : Int) > mini c.rows.length h.rowCount
+  · rw [if_pos hmore]
+    have hcast : (2 : Int) + mini (c.rows.length : Int) h.rowCount = ((2 + (mini (c.rows.length : Int) h.rowCount).toNat : Nat) : Int) := by omega
+    obtain ⟨vt4, hw4, _, _, hkeep4⟩ := vt_write_ok st3.2 ho3 (2 + (mini (c.rows.length : Int) h.rowCount).toNat)
+      (wrap env cBrightBlack (moreNote ((c.rows.length : Int) - mini c.rows.length h.rowCount)))
+    exact ⟨_, vt4, _, by rw [hcast, hw4]; rfl, hkeep4 0 _ (by omega) hl3, hleg⟩
+  · rw [if_neg hmore]
+    exact ⟨_, st3.2, _, rfl, hl3, hleg⟩
+
 end Rare.C14
